@@ -55,8 +55,13 @@ _KEPT = {'kept_handle_getters_judged_after_other_scope_selected': 5000, 'kept_ha
 _KEPT.update(('getter_observed:actual.typed.%s:other-scope-selected' % t, 50) for t in
              ['bool', 'int', 'uint', 'long', 'ulong', 'llong', 'ullong', 'double', 'string', 'ptr', 'cptr', 'fptr'])
 _FLOOR_Q.update(_KEPT)
+# NULL passed as the actual output pointer (C execution), what the user's copy functions saw of it, and what became of those scenarios
+_NULLOUT = {'actual_output_pointer_null:raw': 600, 'actual_output_pointer_null:typed': 600, 'null_output_pointer_pairs:agree_passing': 400,
+            'null_output_pointer_pairs:agree_failing': 800, 'c_copy_fn_call:memcpy:dst-null': 150, 'c_copy_fn_call:xor:dst-null': 100}
+_FLOOR_Q.update(_NULLOUT)
 _FLOOR_T = dict((s, 200) for s in _SLOTS)
 _FLOOR_T.update((k, 2 * v) for k, v in _KEPT.items())
+_FLOOR_T.update((k, 2 * v) for k, v in _NULLOUT.items())
 _FLOOR_T.update((k, 20) for k in _ADAPT)
 _FLOOR_T.update(c_equal_fn_same_object_judged_unequal=200, c_equal_fn_distinct_objects_judged_equal=200)
 _FLOOR_T.update(execution_pairs=500000, pairs_agree_passing=100000, pairs_agree_failing=100000, output_buffers_compared=20000, data_readbacks_compared=20000)
@@ -70,18 +75,21 @@ P = dict(
               'identity, once through mock(scope) and once through mock_c()/mock_scope_c(scope) and the three C function tables; verdict, failure '
               'text, returned values with type tag, OrDefault results, output-parameter bytes, expectedCallsLeft and data-store read-back are '
               'compared event by event; the C execution keeps MockActualCall_c handles across support-level operations of other scopes exactly where the C++ execution '
-              'keeps the MockActualCall reference; ASan/UBSan build + every 40th case under valgrind memcheck',
+              'keeps the MockActualCall reference; NULL is a boundary value of the actual output pointer wherever the framework itself writes nothing through it; ASan/UBSan build + every 40th case under valgrind memcheck',
     rule='case = one scenario (list of statements: expectations with typed parameters / output parameters / return value, actual calls with '
          'return-value getters at call level and support level, strict order, ignore/disable/enable, data store, check, clear, comparators and '
          'copiers drawn from the function families of custom_type_adaptor_table, actual-call chains in which the handle is kept while the data store / expectedCallsLeft '
-         'of another (or the same) scope is consulted before a further parameter or before a return-value getter, the actual call passing the expectation\'s own object or its twin, typed outputs received into the returned object, crashOnFailure) executed through both interfaces. Sections: forwarder_table (enumerated: every parameter / return type x '
+         'of another (or the same) scope is consulted before a further parameter or before a return-value getter, the actual call passing the expectation\'s own object or its twin, typed outputs received into the returned object, NULL passed as the actual output pointer (45 % of the output parameters under whose name no expectation of the scenario returns bytes), crashOnFailure) executed through both interfaces. Sections: forwarder_table (enumerated: every parameter / return type x '
          'boundary lattice x getter x level, output-parameter kinds, tolerance, support-table operations), data_store_table (enumerated), '
          'support_getters_after_ignored_call (enumerated; defect D19, repaired in /repo, its reversal must fire here), custom_type_adaptor_table (enumerated: every member of a '
          'family of user equality functions - structural, non-reflexive, address identity, ordered/asymmetric, never, always with a zero low byte - x every ordered pair of '
          'pool objects including the same object on both sides x one / two candidate expectations x scope; every member of a family of copy functions - memcpy, converting - x '
          'source object, the receiving buffer itself included), kept_handle_table (enumerated: scope of the call x scope of the operation issued in mid-chain - every other scope, '
          'the own scope as control - x getData / set*Data / expectedCallsLeft x before a parameter / before the getter x no return value / every return type x returnValue / typed getter / '
-         'hasReturnValue (observed, not judged, while another scope is selected) / support-level returnValue, each followed by one more returnValue() through the handle), random_scenarios (seeded, about half of them failing), random_custom_type_scenarios (the same generator with comparators and copiers always in play and object parameters / typed outputs dominating). '
+         'hasReturnValue (observed, not judged, while another scope is selected) / support-level returnValue, each followed by one more returnValue() through the handle), null_output_pointer_table (enumerated: the actual call passes NULL as the output pointer - raw / typed of the expected type / typed of another type - x '
+         'what the expectation declares under that name: unmodified / returning 0 bytes from a real source / typed returning a pool object / typed returning the object in a receiving buffer / nothing but '
+         'ignoreOtherParameters / nothing x copier installed x an input parameter before / after it x scope x one expectation / a rival expectation of the same function without that output and with another return value, '
+         'declared first or second / expectNCalls(2) with two calls / a second, real output buffer in the same call; return value and expectedCallsLeft read after every call), random_scenarios (seeded, about half of them failing), random_custom_type_scenarios (the same generator with comparators and copiers always in play and object parameters / typed outputs dominating). '
          'Non-trivial = scenario with an integer value outside int range, or an output parameter, or a failing verdict; distinct by the full '
          'scenario text. Check counters and milliseconds are masked (C returnValue() converts through the checked getters).',
     floor=dict(quick=15000, thorough=250000),
@@ -96,5 +104,8 @@ P = dict(
                  'the other scope\'s last call: counter unjudged:kept_handle_hasReturnValue_after_other_scope_selected:c-differs), which is the stateful-facade scoping of DESIGN section 5',
                  'removeAllComparatorsAndCopiers is only issued on the root scope while no expectation holds a C comparator node (the C facade owns one global node list)',
                  'C booleans are compared by truth value', 'NULL C strings and NULL object pointers are not generated',
+                 'a NULL actual output pointer is only generated for a parameter name under which no expectation of the scenario returns > 0 bytes (withOutputParameterReturning with a non-zero size '
+                 'memcpys into the actual pointer through either interface: a crash of the shared core, not a difference); the copy functions of the family ignore a NULL destination, as a user copier '
+                 'serving optional outputs must (they are still called with it through both interfaces: counters c_copy_fn_call:*:dst-null); that the adaptor hands the NULL destination to the user\'s copy function is counted, not judged',
                  'check counters are not compared'],
 )
